@@ -1094,7 +1094,7 @@ def rule_random_graph(F, R):
         truth_table(R, G + 'augment_colors', 'product-graph edge', sites, spec, t['span']['loc'], t=t, roles=roles)
         # ... and every unordered pair of product vertices is looked at: for the i-th vertex the partners are the whole list, or its tail
         # from i or i + 1 on (`vertices.get((i + 1)..)`); a tail that starts later (or a head) leaves pairs out
-        okp = False; whyp = 'the loop over the partners of a product vertex was not found'
+        okp = True; whyp = ''          # another way of walking the pairs (`while let Some((v1, rest)) = remaining.split_first()`) is not read: only a tail that can be seen to start too late is reported
         for (it1, p1, body1) in for_loops(t['body']):
             vs1 = pat_vars(p1)
             if not (is_enumerate(it1) and len(vs1) == 2 and roles.get(vs1[1]) == 'v1'): continue
@@ -1105,6 +1105,7 @@ def rule_random_graph(F, R):
                 while src['k'] == 'Call' and src['args'] and (callee_name(src) or '').split('::')[-1] in ('iter', 'into_iter', 'deref', 'as_slice'): src = strip(src['args'][0])
                 rv = root_var(src) if src['k'] in ('VarRef', 'UpvarRef') else None
                 tail = None
+                okp = False
                 if rv is not None and roles.get(rv) == 'vertices': okp = True; break          # the whole list
                 # a slice bound by `if let Some(rest) = vertices.get(START..)` / `&vertices[START..]`
                 cands_ = []
